@@ -159,6 +159,24 @@ def build(spec):
     qs = []
     on = []
     todo = []
+    # totals of subtotals: a column of =SUM(row) formulas next to the grid and aggregates over that column (the first cell of the
+    # area is itself a formula with an area inside)
+    grid = spec['grid']
+    if spec.get('subtotals') and not any(kind(v) == 'date' for row in grid for v in row) and len(grid[0]) < 7:
+        ncols_, nrows_ = len(grid[0]), len(grid)
+        col = wbk.get_column_letter(ncols_ + 1)
+        sums = []
+        for r, row in enumerate(grid):
+            sheets[0]['cells'][f'{col}{r + 1}'] = f'=SUM(A{r + 1}:{wbk.get_column_letter(ncols_)}{r + 1})'
+            sums.append(sum(v for v in row if kind(v) == 'num'))
+        rng = f'{col}1:{col}{nrows_}'
+        sub = [('SUM', sum(sums)), ('MAX', max(sums)), ('MIN', min(sums)), ('COUNT', nrows_), ('AVERAGE', sum(sums) / nrows_)]
+        for fn_, exp_ in sub:
+            qs.append(Q(f'={fn_}({rng})', exp_, f'{fn_}:subtotals', nrows_ >= 2, [f'fn:{fn_}', 'subtotals']))
+            on.append('S')
+        if nrows_ >= 2:
+            qs.append(Q(f'=SUM({col}1:{col}1,{col}2:{col}{nrows_})', sum(sums), 'SUM:subtotals-split', True, ['fn:SUM', 'subtotals']))
+            on.append('S')
     for fs in spec['formulas']:
         todo.append((fs, 'S'))
         if spec.get('grid2') and all(not a.get('sheet') and a['t'] in ('area', 'cell', 'col', 'num') for a in fs['args']) \
@@ -265,7 +283,7 @@ def strategy():
                     args.append(area('T' if grid2 and draw(st.integers(0, 3)) == 0 else None))
             formulas.append({'fn': fn, 'args': args, 'embed': draw(st.integers(0, 4)) == 0,
                              'split_partner': draw(st.booleans())})
-        return {'grid': grid, 'grid2': grid2, 'formulas': formulas}
+        return {'grid': grid, 'grid2': grid2, 'formulas': formulas, 'subtotals': draw(st.integers(0, 2)) == 0}
     return spec()
 
 
